@@ -12,6 +12,8 @@ cd $wt
 git checkout -q --detach $(git -C /repo rev-parse HEAD)
 git checkout -- . ; git clean -fdq -e target
 export CARGO_NET_OFFLINE=true
+# the chain tests leak their temporary RocksDB directories: give them a private TMPDIR, wiped at the end
+export TMPDIR=/tmp/mut-verify-tmp; rm -rf $TMPDIR; mkdir -p $TMPDIR
 {
 echo "confirmation of $id at $(git rev-parse --short HEAD) on $(date -u +%FT%TZ)"
 git apply $dir/demo.diff || echo "DEMO DOES NOT APPLY"
@@ -32,4 +34,5 @@ echo "exit $rc3 (expected 0)"
 if [ $rc1 -eq 0 ] && [ $rc2 -ne 0 ] && [ $rc3 -eq 0 ]; then echo "CONFIRMED"; else echo "NOT CONFIRMED"; fi
 } > $log 2>&1
 git checkout -- . ; git clean -fdq -e target
+rm -rf /tmp/mut-verify-tmp
 tail -1 $log
